@@ -66,19 +66,19 @@ func atomLin(at atom) lin   { return lin{c: new(big.Rat), t: map[atom]*big.Rat{a
 // cons: e >= 0
 type cons struct{ e lin }
 
-func ge(a, b lin) cons { return cons{a.add(b, -1)} }           // a >= b
+func ge(a, b lin) cons { return cons{a.add(b, -1)} }                   // a >= b
 func gt(a, b lin) cons { return cons{a.add(b, -1).add(konst(1), -1)} } // a > b (integers)
 
 type prover struct {
-	db     *proverDB
-	fn     *ssa.Function
-	canon  map[ssa.Value]ssa.Value
-	phiInv []cons
-	env    map[ssa.Value]lin     // parameter bindings while inlining a callee
-	lenEnv map[ssa.Value]lin     // len(param) bindings while inlining
-	capEnv map[ssa.Value]lin     // cap(param) bindings while inlining
-	cfVisit map[ssa.Value]bool   // recursion guard of condFacts
-	depth  int
+	db      *proverDB
+	fn      *ssa.Function
+	canon   map[ssa.Value]ssa.Value
+	phiInv  []cons
+	env     map[ssa.Value]lin  // parameter bindings while inlining a callee
+	lenEnv  map[ssa.Value]lin  // len(param) bindings while inlining
+	capEnv  map[ssa.Value]lin  // cap(param) bindings while inlining
+	cfVisit map[ssa.Value]bool // recursion guard of condFacts
+	depth   int
 }
 
 type proverDB struct {
@@ -434,7 +434,7 @@ func typeRange(at lin, t types.Type, facts *[]cons) {
 			*facts = append(*facts, ge(konst(int64(1)<<uint(bits)-1), at))
 		}
 	} else if bits <= 32 {
-		*facts = append(*facts, ge(at, konst(-(int64(1) << uint(bits-1)))))
+		*facts = append(*facts, ge(at, konst(-(int64(1)<<uint(bits-1)))))
 		*facts = append(*facts, ge(konst(int64(1)<<uint(bits-1)-1), at))
 	}
 }
@@ -579,7 +579,7 @@ func (p *prover) toLin(v ssa.Value, facts *[]cons) lin {
 				if entails(*facts, inner) {
 					*facts = append(*facts, cons{at.clone()}, ge(konst(c-1), at), ge(inner, at))
 				} else {
-					*facts = append(*facts, ge(konst(c-1), at), ge(at, konst(-(c - 1))))
+					*facts = append(*facts, ge(konst(c-1), at), ge(at, konst(-(c-1))))
 				}
 				return at
 			}
